@@ -3,5 +3,6 @@ import NflowsModel.Properties.C12
 import NflowsModel.Properties.C12E
 import NflowsModel.Properties.C12R
 import NflowsModel.Properties.C12F
+import NflowsModel.Properties.C12S
 
 #audit_namespace Properties.C12
